@@ -1088,9 +1088,12 @@ class Store:
                 self.recursive_end_process(value[subval])
         return
     
-    def _delete_path(self, path):
+    def _delete_path(self, path, end_processes=True):
         """
         Delete the subtree at the given path.
+
+        Parallel processes in the subtree are ended unless
+        ``end_processes`` is false (the subtree lives on elsewhere).
         """
 
         if not path:
@@ -1102,7 +1105,8 @@ class Store:
         if remove in target.inner:
             lost = target.inner[remove]
             # End any parallel processes to be deleted
-            self.recursive_end_process(target.inner[remove])
+            if end_processes:
+                self.recursive_end_process(target.inner[remove])
             del target.inner[remove]
             return lost
         return None
@@ -1291,7 +1295,8 @@ class Store:
                 process_updates.append((
                     process_path, process.value))
 
-        self._delete_path(source_path)
+        # detach the source; its processes keep running under the target
+        self._delete_path(source_path, end_processes=False)
 
         here = self.path_for()
         source_absolute = tuple(here + source_path)
